@@ -17,6 +17,7 @@ from pyvc import loader
 from pyvc.flow import dotted, ground_obligation
 
 from contracts.c03_flow import iteration_paths, MANY
+from contracts.c14_inline import line_of as LN, inlined as inline_helpers
 from contracts.c14_flow import parent_map, ancestors, reaching, pos, bindings_of, method_calls
 
 EX = "sharepoint2text/parsing/extractors/"
@@ -53,10 +54,12 @@ def is_other_write(n, name):
 
 
 class Checker:
-    def __init__(self, prop, rel, fname, repo):
+    def __init__(self, prop, rel, fname, repo, inline=True):
         self.rel, self.fname = rel, fname
         self.mod = loader.module(rel, repo)
-        self.fn = self.mod.functions.get(fname)
+        self.raw_fn = self.mod.functions.get(fname)
+        # small private helpers of the module are inlined (AST level), so that the analyses follow the data flow through them
+        self.fn, self.inlined_helpers = inline_helpers(self.mod, fname) if (inline and self.raw_fn is not None) else (self.raw_fn, [])
         self.short = rel.split("/")[-1]
         self.obls = []
         self.total = set()      # names of repo functions proved not to raise (sniffers) / dataclass constructors
@@ -103,11 +106,11 @@ class Checker:
             for (vec, status) in paths2(lp.body, events, self.total):
                 inc, num, unn, other = vec
                 if other:
-                    bad.append(f"counter re-assigned inside the image loop (line {lp.lineno})")
+                    bad.append(f"counter re-assigned inside the image loop (line {LN(lp)})")
                 elif unn:
-                    bad.append(f"a path appends an image without a number (loop at line {lp.lineno}, path ends with {status})")
+                    bad.append(f"a path appends an image without a number (loop at line {LN(lp)}, path ends with {status})")
                 elif (inc, num) not in ((0, 0), (1, 1)):
-                    bad.append(f"a path through the loop at line {lp.lineno} has {inc if inc < MANY else 'several'} increment(s) and "
+                    bad.append(f"a path through the loop at line {LN(lp)} has {inc if inc < MANY else 'several'} increment(s) and "
                                f"{num if num < MANY else 'several'} numbered append(s) (path ends with {status})")
         self.add("numbering", label, not bad, "; ".join(sorted(set(bad)))[:600])
 
@@ -118,11 +121,11 @@ class Checker:
             if v is None:
                 continue
             if not (isinstance(v, ast.Name) and v.id == counter):
-                bad.append(f"line {c.lineno}: {num_kw}={ast.unparse(v)}")
+                bad.append(f"line {LN(c)}: {num_kw}={ast.unparse(v)}")
                 continue
             b = reaching(self.fn, self.pm, counter, c)
             if b is None or not is_inc(b.node, counter):
-                bad.append(f"line {c.lineno}: the value of {counter} used is not the one right after `{counter} += 1`")
+                bad.append(f"line {LN(c)}: the value of {counter} used is not the one right after `{counter} += 1`")
         self.add("numbering", label, not bad, "; ".join(bad))
 
     def starts_at_zero_once(self, counter, fn=None, label="counter-starts-at-zero-once-per-document", unit_loop_ok=None):
@@ -135,7 +138,7 @@ class Checker:
         if len(zero) != 1 or len(inits) != len(zero) + len([n for n in inits if n not in zero and self._threaded(n, counter)]):
             return self.add("numbering", label, False, f"{len(zero)} zero-initialisations, {len(inits)} assignments of {counter} in {fn.name}")
         if loops_around(pm, zero[0]):
-            return self.add("numbering", label, False, f"{counter} = 0 sits inside a loop (line {zero[0].lineno})")
+            return self.add("numbering", label, False, f"{counter} = 0 sits inside a loop (line {LN(zero[0])})")
         return zero[0]
 
     def _threaded(self, n, counter):
